@@ -50,7 +50,7 @@ Section Effects.
   Theorem tick_cancelled e rounds fuel main s main' s' raised :
     tick p rounds fuel e main s = Some (main', s', raised) -> forall m, A12 m (st s m) (st s' m).
   Proof.
-    apply (tick_ok p e A12); unfold A12.
+    apply (tick_ok p e A12 (fun _ => True)); unfold A12; [..|exact (fun _ => I)].
     - intros m x _. split; auto.
     - intros m x y z H1 H2 U. destruct (H1 U) as [A B], (H2 U) as [C D]. split; [auto|]. intros Cx Ax. apply D; auto.
     - intros m x _. split; auto.
